@@ -483,6 +483,55 @@ func c18Check(c *kit.Case, in c18Input) {
 		}
 	}
 
+	// ---- one caller-owned slice handed to several calls, with the other hash function and an
+	// in-place edit between them: every result depends on the contents at the time of the call only
+	if n > 0 {
+		shared := impl()
+		j := ((in.ChIdx % n) + n) % n
+		hf2, H2 := hash.KeccakHash, c18H(c18Keccak)
+		if in.Keccak {
+			hf2, H2 = hash.Blake2bHash, c18Blake
+		}
+		sweep := func(what string, cur [][]byte, f func(types.ByteSequence) types.OpaqueHash, HH c18H) {
+			for x := 0; x <= 6; x += 2 {
+				pages := (n + (1 << uint(x)) - 1) >> uint(x)
+				for i := 0; i < pages; i++ {
+					if gotJ, wantJ := mt.Jx(types.U8(x), shared, types.U32(i), f), c18RefJx(x, cur, i, HH); !c18HashesEq(gotJ, wantJ) {
+						c.Failf("%s: J_%d over %d elements, page %d = %x, reference %x", what, x, n, i, gotJ, wantJ)
+					}
+					if gotL, wantL := mt.Lx(types.U8(x), shared, types.U32(i), f), c18RefLx(x, cur, i, HH); !c18HashesEq(gotL, wantL) {
+						c.Failf("%s: L_%d over %d elements, page %d = %x, reference %x", what, x, n, i, gotL, wantL)
+					}
+				}
+			}
+			if got, want := mt.M(shared, f), c18RefM(cur, HH); got != types.OpaqueHash(want) {
+				c.Failf("%s: M over %d elements = %x, reference %x", what, n, got, want)
+			}
+			if got, want := mt.C(shared, f), c18RefC(cur, HH); !c18HashesEq(got, want) {
+				c.Failf("%s: C over %d elements = %x, reference %x", what, n, got, want)
+			}
+			if !c18HasNil(in.Elems) && in.ChTo != nil {
+				if got, want := mt.N(shared, f), c18RefN(cur, HH); !bytes.Equal(got, want) {
+					c.Failf("%s: N over %d elements = %x, reference %x", what, n, got, want)
+				}
+				if got, want := mt.Mb(shared, f), c18RefMB(cur, HH); got != types.OpaqueHash(want) {
+					c.Failf("%s: Mb over %d elements = %x, reference %x", what, n, got, want)
+				}
+			}
+		}
+		sweep("same slice, first use", ref, hf, H)
+		sweep("same slice, other hash function", ref, hf2, H2)
+		if !bytes.Equal(in.ChTo, ref[j]) {
+			c.Class("same_slice_edited_in_place")
+			shared[j] = append(types.ByteSequence{}, in.ChTo...)
+			ch := make([][]byte, n)
+			copy(ch, ref)
+			ch[j] = append([]byte{}, in.ChTo...)
+			sweep(fmt.Sprintf("same slice after element %d was replaced in place", j), ch, hf, H)
+			sweep(fmt.Sprintf("same slice after element %d was replaced in place, other hash function", j), ch, hf2, H2)
+		}
+	}
+
 	// ---- J_x, L_x, VerifyMerkleProof: every page exponent 0..6, every page
 	L := c18CeilLog2(n)
 	for x := 0; x <= 6; x++ {
